@@ -90,6 +90,9 @@ func loadState(db dbm.DB, key []byte) *State {
 		gcmn.Exit(gcmn.Fmt("Data has been corrupted or its spec has changed: %v\n", *err))
 	}
 	// TODO: ensure that buf is completely read.
+	if *n <= len(buf) {
+		s.restoreProposers(buf[*n:])
+	}
 
 	return s
 }
@@ -124,19 +127,54 @@ func StateDB(config *viper.Viper) dbm.DB {
 func (s *State) Save() {
 	s.mtx.Lock()
 	defer s.mtx.Unlock()
-	s.db.SetSync(stateKey, s.Bytes())
+	s.db.SetSync(stateKey, s.persistBytes())
 }
 
 func (s *State) SaveToKey(key []byte) {
 	s.mtx.Lock()
 	defer s.mtx.Unlock()
-	s.db.SetSync(key, s.Bytes())
+	s.db.SetSync(key, s.persistBytes())
 }
 
 func (s *State) SaveIntermediate() {
 	s.mtx.Lock()
 	defer s.mtx.Unlock()
-	s.db.SetSync(stateIntermediateKey, s.Bytes())
+	s.db.SetSync(stateIntermediateKey, s.persistBytes())
+}
+
+// The proposer a ValidatorSet selected with its last IncrementAccum is cached in
+// an unexported field and cannot be recomputed from the accums. A node that
+// reloads its state must name the same proposer as the nodes that kept running,
+// so the two addresses are appended to the persisted bytes as a trailer
+// (ignored by readers that do not know it; absent in data written before).
+var proposersTrailerMagic = []byte("\x00proposers\x01")
+
+func (s *State) persistBytes() []byte {
+	buf := s.Bytes()
+	buf = append(buf, proposersTrailerMagic...)
+	for _, vs := range []*types.ValidatorSet{s.Validators, s.LastValidators} {
+		addr := vs.ProposerAddress()
+		buf = append(buf, byte(len(addr)))
+		buf = append(buf, addr...)
+	}
+	return buf
+}
+
+func (s *State) restoreProposers(trailer []byte) {
+	if !bytes.HasPrefix(trailer, proposersTrailerMagic) {
+		return
+	}
+	trailer = trailer[len(proposersTrailerMagic):]
+	for _, vs := range []*types.ValidatorSet{s.Validators, s.LastValidators} {
+		if len(trailer) < 1 || len(trailer) < 1+int(trailer[0]) {
+			return
+		}
+		addr := trailer[1 : 1+int(trailer[0])]
+		trailer = trailer[1+int(trailer[0]):]
+		if vs != nil && len(addr) > 0 {
+			vs.SetProposerByAddress(addr)
+		}
+	}
 }
 
 // Load the intermediate state into the current state
